@@ -251,6 +251,9 @@ class UnitRegistry:
         """
         sanitized_lut = {}
         for k, v in self.lut.items():
+            if k in (self._derived_symbols or ()):
+                # written back by a look-up: derived again by the loaded registry
+                continue
             san_v = list(v)
             repr_dims = str(v[1])
             san_v[1] = repr_dims
